@@ -94,7 +94,7 @@ class Runner:
             self.skip_samples.append(f'{text!r}: {type(exc).__name__}: {str(exc)[:120]}')
 
     def result(self):
-        out = {'cases': self.cases, 'distinct': len(self.distinct), 'failures': self.failures, 'samples': self.samples, 'skipped': getattr(self, 'skipped', 0)}
+        out = {'cases': self.cases, 'distinct': len(self.distinct) + getattr(self, 'extra_distinct', 0), 'failures': self.failures, 'samples': self.samples, 'skipped': getattr(self, 'skipped', 0)}
         sk = out['skipped']
         if sk and sk > 0.25 * (sk + self.cases):
             out['error'] = f'{sk} of {sk + self.cases} generated inputs were rejected before the check (generator out of tune): {getattr(self, "skip_samples", [])}'
@@ -379,6 +379,26 @@ def run_c05(repo, tier, seed, only=None):
                 ok = got[0] == 'err'
             if not ok:
                 R.fail(name, f'docs={texts} wrapped under {chain}: unwrapped result {base!r}, wrapped result {got!r}'[:700], {'family': 'c05', 'docs': texts, 'chain': chain})
+    # F3: pre-merge operators (!extend / !append) on a key directly below the root and below a wrapping key, with key names that are not
+    # plain identifiers (a path handed on as text would be re-parsed), with and without a sibling whose own path spells the same text
+    opname = 'bounded:C05.operators-under-any-key-name-behave-the-same-wrapped-and-unwrapped'
+    for key, sib in (('lst', ''), ("'a.b'", ''), ("'a.b'", 'a: {b: [7]}, '), ("'x[0]'", ''), ("'x[0]'", 'x: [[7], 8], '), ("'my-list'", ''), ('0', ''), ("'a b'", '')):
+        for op in ('!extend [3]', '!append 3', '!extend [3, [4]]'):
+            texts = ['{%s%s: [1, 2]}' % (sib, key), '{%s: %s}' % (key, op)]
+            if rng.random() < 0.5:
+                texts.append('{%s: %s}' % (key, op))
+            base = build(ay, texts)
+            nosib = build(ay, [t.replace(sib, '') for t in texts]) if sib else base
+            wtexts = ['{w: %s}' % t for t in texts]
+            got = build(ay, wtexts)
+            R.case(tuple(wtexts), {'docs': texts, 'wrapped_under': ['w']})
+            ok = (base[0] == got[0]) and (base[0] != 'ok' or unordered_eq(got[1], {'w': base[1]}))
+            if not ok:
+                R.fail(opname, f'docs={texts} wrapped under w: unwrapped result {base!r}, wrapped result {got!r}'[:700], {'family': 'c05', 'docs': texts, 'chain': ['w']})
+            elif sib and base[0] == 'ok' and nosib[0] == 'ok':
+                kk = [k for k in nosib[1]][0]
+                if not unordered_eq(base[1].get(kk), nosib[1].get(kk)):
+                    R.fail(opname, f'docs={texts}: value at {kk!r} is {base[1].get(kk)!r} with the sibling present and {nosib[1].get(kk)!r} without it', {'family': 'c05', 'docs': texts, 'chain': []})
     return R.result()
 
 
